@@ -150,6 +150,25 @@ func (e *Explorer) get(fn *ssa.Function, params []Prov, bools []boolc, fvs []Pro
 
 func typeKey(t types.Type) string { return types.TypeString(t, nil) }
 
+// elemKey names the heap summary cell of the elements of a container. Slices, arrays and pointers to arrays with the same
+// element type share one cell (the variadic argument of append is an array that is sliced; a named slice type and its
+// unnamed form are the same memory), maps are keyed by their underlying type.
+func elemKey(t types.Type) string {
+	u := t.Underlying()
+	if p, ok := u.(*types.Pointer); ok {
+		u = p.Elem().Underlying()
+	}
+	switch x := u.(type) {
+	case *types.Slice:
+		return "elem:[]" + typeKey(x.Elem())
+	case *types.Array:
+		return "elem:[]" + typeKey(x.Elem())
+	case *types.Map:
+		return "elem:" + typeKey(x)
+	}
+	return "elem:" + typeKey(t)
+}
+
 func (e *Explorer) heapKey(addr ssa.Value) string {
 	switch a := addr.(type) {
 	case *ssa.FieldAddr:
@@ -160,7 +179,7 @@ func (e *Explorer) heapKey(addr ssa.Value) string {
 		if p, ok := t.Underlying().(*types.Pointer); ok { // pointer to array
 			t = p.Elem()
 		}
-		return "elem:" + typeKey(t)
+		return elemKey(t)
 	}
 	return "deref:" + typeKey(addr.Type())
 }
@@ -515,7 +534,7 @@ func (e *Explorer) instr(c *clone, in ssa.Instruction) {
 			e.set(c, x, Unknown)
 		}
 	case *ssa.Lookup:
-		e.set(c, x, e.loadFrom(c, x.X, "elem:"+typeKey(x.X.Type())))
+		e.set(c, x, e.loadFrom(c, x.X, elemKey(x.X.Type())))
 	case *ssa.Range:
 		e.set(c, x, c.prov(x.X))
 	case *ssa.Next:
@@ -523,7 +542,7 @@ func (e *Explorer) instr(c *clone, in ssa.Instruction) {
 			return
 		}
 		if it, ok := x.Iter.(*ssa.Range); ok {
-			e.set(c, x, e.loadFrom(c, it.X, "elem:"+typeKey(it.X.Type())))
+			e.set(c, x, e.loadFrom(c, it.X, elemKey(it.X.Type())))
 		} else {
 			e.set(c, x, Unknown)
 		}
@@ -567,7 +586,7 @@ func (e *Explorer) instr(c *clone, in ssa.Instruction) {
 			e.report(c, x, "mapupdate", describeBase(x.Map), p, "update of a map that is not owned by this call")
 		}
 		if p&Fresh != 0 {
-			k := "elem:" + typeKey(x.Map.Type())
+			k := elemKey(x.Map.Type())
 			if PointerLike(x.Value.Type()) {
 				e.heapAdd(k, c.prov(x.Value))
 			}
@@ -714,7 +733,7 @@ func (e *Explorer) resolveCaptured(c *clone, v ssa.Value) (*ssa.Function, []Prov
 }
 
 func (e *Explorer) elemProv(c *clone, v ssa.Value) Prov {
-	return e.loadFrom(c, v, "elem:"+typeKey(v.Type()))
+	return e.loadFrom(c, v, elemKey(v.Type()))
 }
 
 func (e *Explorer) call(c *clone, site ssa.Instruction, cc *ssa.CallCommon, res ssa.Value) {
@@ -734,9 +753,9 @@ func (e *Explorer) call(c *clone, site ssa.Instruction, cc *ssa.CallCommon, res 
 			if len(cc.Args) > 1 {
 				if et, ok := cc.Args[0].Type().Underlying().(*types.Slice); ok && PointerLike(et.Elem()) {
 					ep := e.elemProv(c, cc.Args[1])
-					e.heapAdd("elem:"+typeKey(cc.Args[0].Type()), ep)
+					e.heapAdd(elemKey(cc.Args[0].Type()), ep)
 					if res != nil {
-						e.heapAdd("elem:"+typeKey(res.Type()), ep)
+						e.heapAdd(elemKey(res.Type()), ep)
 					}
 				}
 			}
@@ -745,7 +764,7 @@ func (e *Explorer) call(c *clone, site ssa.Instruction, cc *ssa.CallCommon, res 
 				e.report(c, site, "copy", describeBase(cc.Args[0]), p, "copy into a slice that is not owned by this call")
 			}
 			if et, ok := cc.Args[0].Type().Underlying().(*types.Slice); ok && PointerLike(et.Elem()) {
-				e.heapAdd("elem:"+typeKey(cc.Args[0].Type()), e.elemProv(c, cc.Args[1]))
+				e.heapAdd(elemKey(cc.Args[0].Type()), e.elemProv(c, cc.Args[1]))
 			}
 		case "delete":
 			if p := c.prov(cc.Args[0]); p&NonOwned != 0 {
@@ -1207,4 +1226,20 @@ func IdentityAppend(in ssa.Instruction) bool {
 func isNilConst(v ssa.Value) bool {
 	c, ok := v.(*ssa.Const)
 	return ok && c.Value == nil
+}
+
+// DebugClones lists the analysed clones (function, parameter provenances) whose function name contains substr.
+func (e *Explorer) DebugClones(substr string) []string {
+	var out []string
+	for _, c := range e.order {
+		if substr != "" && !strings.Contains(c.fn.String(), substr) {
+			continue
+		}
+		var ps []string
+		for _, p := range c.params {
+			ps = append(ps, p.String())
+		}
+		out = append(out, fmt.Sprintf("clone %s (%s) from %s", c.fn.String(), strings.Join(ps, ", "), e.path(c)))
+	}
+	return out
 }
